@@ -517,8 +517,6 @@ func (r *FileRestorer) restoreIdent(n *dst.Ident, parentName, parentField, paren
 	out := &ast.SelectorExpr{}
 	r.Ast.Nodes[n] = out
 	r.Dst.Nodes[out] = n
-	r.Dst.Nodes[out.Sel] = n
-	r.Dst.Nodes[out.X] = n
 	r.applySpace(n, "Before", n.Decs.Before)
 
 	// Decoration: Start
@@ -526,6 +524,7 @@ func (r *FileRestorer) restoreIdent(n *dst.Ident, parentName, parentField, paren
 
 	// Node: X
 	out.X = r.restoreNode(dst.NewIdent(name), "SelectorExpr", "X", "Expr", allowDuplicate).(ast.Expr)
+	r.Dst.Nodes[out.X] = n
 
 	// Token: Period
 	r.cursor += token.Pos(len(token.PERIOD.String()))
@@ -535,6 +534,7 @@ func (r *FileRestorer) restoreIdent(n *dst.Ident, parentName, parentField, paren
 
 	// Node: Sel
 	out.Sel = r.restoreNode(dst.NewIdent(n.Name), "SelectorExpr", "Sel", "Ident", allowDuplicate).(*ast.Ident)
+	r.Dst.Nodes[out.Sel] = n
 
 	// Decoration: End
 	r.applyDecorations(out, "End", n.Decs.End, true)
